@@ -432,9 +432,22 @@ def r2(ctx, facts):
     lp_pos = [p for lp in loops for p in fg.positions(lp.get("body"))] if False else None
     after_upd = bool(loops) and bool(upd) and all(not fg.exists_path([fg.entry_node], fg.positions(c_), avoid_nodes=upd)
                                                   for c_ in ft.calls(r"^fmtquill::(v\d+::)?format_to"))
-    ctx.ob("C13.R6b", "StringFromTime::format_timestamp:all-positions-patched", bool(loops) and not early and sw_breaks_only and after_upd,
+    # ... and unconditionally: within its case a position is written whatever was written the last time (the text under the position may
+    # have been rebuilt by strftime in between, so 'same value as last time' does not mean 'already there')
+    cond_patch = []
+    for lp in loops:
+        for c_ in ft.calls(r"^fmtquill::(v\d+::)?format_to"):
+            if not in_subtree(c_, lp.get("body")):
+                continue
+            for a in ft.ancestors(c_):
+                if a["k"] == "SwitchStmt" or a is lp:
+                    break
+                if a["k"] in ("IfStmt", "ConditionalOperator", "WhileStmt", "ForStmt"):
+                    cond_patch.append(c_["loc"])
+                    break
+    ctx.ob("C13.R6b", "StringFromTime::format_timestamp:all-positions-patched", bool(loops) and not early and sw_breaks_only and after_upd and not cond_patch,
            "every recorded position is patched after the cached time of day was advanced (range-for over _cached_indexes, no early "
-           "exit, 'break' only inside the switch)", fn=ft)
+           "exit, 'break' only inside the switch), and within its case unconditionally (conditional patches: %s)" % (cond_patch or "none"), fn=ft)
 
 
 def r3(ctx, facts):
@@ -626,6 +639,17 @@ def r4(ctx, facts):
         ctx.ob("C13.R4d", "StringFromTime::format_timestamp:next-point:%s" % zn, ok,
                "zone %s: %s%s" % (zn, why, " — every UTC offset in use is a multiple of 15 minutes, so local midnight/noon always fall on a "
                                   "15-minute boundary of epoch time and on no coarser grid" if zn == "LocalTime" else ""), fn=f)
+    # R4g: the point computed above is the point in force: nothing moves it afterwards (noon is a rebuild point in GMT whatever the
+    # pattern looks like before %r / %T / %D are expanded)
+    sfc = [x for x in facts.fns if x.config == "A" and x.cls == SF]
+    moved = [(x.short.split("::")[-1], a["loc"]) for x in sfc for a in x.walk()
+             if (a["k"] == "CompoundAssignOperator" and is_this_field(a["lhs"], "_next_recalculation_timestamp")) or
+             (a["k"] == "UnaryOperator" and a.get("op") in ("++", "--") and is_this_field(a.get("sub"), "_next_recalculation_timestamp"))]
+    plain = [(x.short.split("::")[-1], a) for x in sfc for a in x.walk() if a["k"] == "BinaryOperator" and a["op"] == "=" and is_this_field(a["lhs"], "_next_recalculation_timestamp")]
+    selfref = [(n_, a["loc"]) for (n_, a) in plain if any(is_this_field(y, "_next_recalculation_timestamp") for y in walk(a["rhs"]))]
+    ctx.ob("C13.R4g", "StringFromTime:next-point-never-moved", not moved and not selfref and len(plain) >= 2,
+           "_next_recalculation_timestamp is only ever assigned a freshly computed point (%d assignment(s)); it is never adjusted in place "
+           "(adjusted at: %s)" % (len(plain), moved + selfref or "nowhere"), fn=f)
     # R4e: elapsed seconds against the cached timestamp before it is overwritten
     finits = f.var_inits()
     upd = [a for a in f.walk() if a["k"] == "CompoundAssignOperator" and a["op"] == "+=" and is_this_field(a["lhs"], "_cached_seconds")]
